@@ -15,6 +15,7 @@ from typing import Iterator, Mapping, Any, List, Optional, Callable
 
 from spil import Sid
 from spil.sid.read.util import first
+from spil.sid.read.finder import is_plain_sid
 from spil.sid.read.tools import unfold_search
 
 
@@ -91,7 +92,7 @@ class Getter:
         """
         # shortcut if Sid is not a search
         sid = Sid(search_sid)
-        if sid and not sid.is_search():
+        if is_plain_sid(sid):
             generator = self.do_get([sid], attributes=attributes, sid_encode=sid_encode)
         else:
             search_sids = unfold_search(search_sid)
